@@ -21,6 +21,8 @@ from sa.model import AnalysisError, norm_text
 from .common import world
 
 
+CONFIG_SENSITIVE = True      # thorough tier: analysed under all four build configurations
+
 def cond_sign(test, var):
     """classify a test on digit variable `var`: '0', '-', '+', or None"""
     if isinstance(test, ast.Compare) and len(test.ops) == 1 and isinstance(test.left, ast.Name) and test.left.id == var \
